@@ -51,11 +51,28 @@ errcode_t ext2fs_read_dir_block4(ext2_filsys fs, blk64_t block, void *buf, int f
 		((unsigned char *) buf)[i] = IN.buf[i];
 	return 0;
 }
-/* STUB: ext2fs_dirhash2() is replaced by a deterministic function of the first name byte and the length (it only decides the order) */
+/*
+ * STUB: ext2fs_dirhash2() is replaced by a deterministic function of the first name byte and the length (it only
+ * decides the order) that CHECKS what it is handed (pattern T): the hash algorithm is the format's -- the superblock's
+ * s_def_hash_version, promoted to the unsigned variant (+3) iff it is legacy/half_md4/tea and s_flags has
+ * EXT2_FLAGS_UNSIGNED_HASH --, the seed is s_hash_seed, the name is the entry's name with its own length, no charset
+ * and no casefold flag for a plain directory.  (The hash functions themselves are C10's.)
+ */
+static int vf_nhash;
 errcode_t ext2fs_dirhash2(int version, const char *name, int len, const struct ext2fs_nls_table *charset,
 			  int hash_flags, const __u32 *seed, ext2_dirhash_t *ret_hash, ext2_dirhash_t *ret_minor_hash)
 {
-	(void) version; (void) charset; (void) hash_flags; (void) seed;
+	int want = vf_sb.s_def_hash_version;
+	const unsigned char *n = (const unsigned char *) name;
+
+	if (want <= 2 /* EXT2_HASH_TEA */ && (vf_sb.s_flags & 0x0002 /* EXT2_FLAGS_UNSIGNED_HASH */))
+		want += 3;
+	vf_nhash++;
+	PROP(version == want, "the hash algorithm handed to ext2fs_dirhash2 is s_def_hash_version, unsigned variant iff flagged");
+	PROP(seed == vf_sb.s_hash_seed, "the hash seed handed to ext2fs_dirhash2 is s_hash_seed");
+	PROP(charset == vf_fs.encoding && hash_flags == 0, "plain directory: no casefold flag");
+	PROP(n >= vf_dirbuf + 8 && n < vf_dirbuf + BLK && len == n[-2] && len > 0,
+	     "the name handed to ext2fs_dirhash2 is an entry's name with that entry's name_len");
 	*ret_hash = ((unsigned char) name[0] << 8) & ~1U;
 	if (ret_minor_hash)
 		*ret_minor_hash = len;
@@ -210,6 +227,9 @@ int main(void)
 	PROP(fd.parent == vf_dotdot, "fill_dir_block records the inode of '..' as parent");
 #endif
 	PROP(fd.dir_size == vf_sum, "dir_size is the sum of the minimal record lengths of the indexed entries");
+#ifndef COMPRESS
+	PROP((blk_t) vf_nhash == fd.num_array, "every indexed entry was hashed exactly once");
+#endif
 	for (i = 0; i < MAXENT; i++)
 		if ((blk_t) i < fd.num_array) {
 			PROP((unsigned char *) vf_harray[i].dir >= vf_dirbuf && (unsigned char *) vf_harray[i].dir < vf_dirbuf + BLK &&
